@@ -78,9 +78,9 @@ func (c Case) gcInterval() time.Duration {
 		if c.TTL < 0 {
 			return time.Duration(math.MaxInt64) / 4
 		}
-		return time.Duration(c.TTL) * tick / 4
+		return time.Duration(c.TTL) * c.tickOf() / 4
 	}
-	return time.Duration(c.GCInterval) * tick
+	return time.Duration(c.GCInterval) * c.tickOf()
 }
 
 func checkC09(t *testing.T, c Case) *stats.Verdict {
@@ -119,7 +119,7 @@ func checkC09(t *testing.T, c Case) *stats.Verdict {
 			w.val.GC()
 			sh.collect(w.m)
 		case "advance":
-			w.m.now = w.m.now.Add(time.Duration(op.Dt) * tick)
+			w.m.now = w.m.now.Add(time.Duration(op.Dt) * c.tickOf())
 		}
 		if sh.grew && sh.shrank && sh.removed {
 			interesting = true
